@@ -43,8 +43,23 @@ QQ_FILTER = [dict(base([{"sender": "s@rem.example", "rcpts": ["joe@loc.example",
                   qq_refuse=ref) for ref in ([31], [11], [53], [71], [91], [31, 53], [31, 31, 11], ["k9"], ["k11"], ["k9", 31, "k6"]) for bs in ("K", "D")]
 
 
+# wide envelopes: recipient lists of both channels that exceed the daemon's 1024-byte per-channel write buffers (and its 8 KB todo read
+# buffer) in every order - each accepted recipient must come out of the pre-processing exactly once (added after seeded change C03-I)
+def wide(order, nbig, nsmall=2, name="user%03d-with-a-rather-long-mailbox-name"):
+    big = [(name % i) for i in range(nbig)]
+    dom = {"L": "loc.example", "R": "rem.example"}
+    o, s_ = order
+    rc = {"sb": ["a@%s" % dom[s_]] + ["%s@%s" % (b, dom[o]) for b in big] + ["z@%s" % dom[s_]],
+          "bs": ["%s@%s" % (b, dom[o]) for b in big] + ["a@%s" % dom[s_], "z@%s" % dom[s_]],
+          "mix": [x for i, b in enumerate(big) for x in (["%s@%s" % (b, dom[o])] + (["m%d@%s" % (i, dom[s_])] if i % 9 == 4 else []))]}
+    return [base([{"sender": "s@rem.example", "rcpts": r, "body": "x\n"}], {"0:1": "D", "0:%d" % (len(r) - 1): "ZK"}, bscript="K") for r in rc.values()]
+
+
+WIDE = wide("LR", 40) + wide("RL", 40) + wide("LR", 75)[:1] + wide("RL", 230, name="u%03d-remote-recipient-mailbox")[:1]
+
+
 def run(ctx):
-    q.search(ctx, "C03", TAGS, 0, 0, fixed=QQ_FILTER)
+    q.search(ctx, "C03", TAGS, 0, 0, fixed=QQ_FILTER + WIDE)
     # every single allocation of the daemon failing once (out of memory is a transient failure like any other): the daemon is built to sleep
     # and go on; it may leave a job open until its next start, so only the safety core is judged - no recipient dropped, no bounce lost
     q.search(ctx, "C03", TAGS, 0, 0, sweep={"all": True, "faults_only": True, "fault_classes": ["malloc"], "malloc": True, "tags": ["C03-drop"]}, fixed=FULLY_SWEPT)
